@@ -11,6 +11,7 @@ import Driver.Alias
 import Driver.Sctp
 import Driver.Client
 import Driver.Reflect
+import Driver.Resource
 /-!
   Driver — reads correspondence lines `domain op args… => impl-output` on stdin and prints,
   per line, tab-separated: index, agree|DISAGREE|BADLINE, Spec verdicts (comma separated or
@@ -97,6 +98,10 @@ def handle (st : St) (idx : Nat) (line : String) : St × String :=
       (match (kv rest "b").bind fromHex with
        | some b => (st, emit idx impl (judgeRetry ((kvNat rest "r").getD 0) (parseOutcomes ((kv rest "outs").getD "-")) b implToks))
        | none => bad)
+    | "resource" :: "claim" :: rest =>
+      (st, emit idx impl (judgeClaim ((kvNat rest "declared").getD 0) ((kvNat rest "supplied").getD 0) implToks))
+    | "resource" :: "nest" :: rest =>
+      (st, emit idx impl (judgeNest ((kvNat rest "depth").getD 0) ((kv rest "op").getD "") implToks))
     | "reflect" :: "rt" :: _ => (st, emit idx impl (judgeReflect implToks))
     | "smclient" :: "cea" :: _ => (st, emit idx impl (judgeCEA dict implToks))
     | "smclient" :: "dial" :: rest =>
